@@ -860,6 +860,10 @@ func genBlockFrame(rt *rapid.T) c39Raw {
 		raw = append(raw, rapid.SliceOfN(rapid.Byte(), 1, 12).Draw(rt, "trailRaw")...)
 	case "trailing-compressed":
 		tail = rapid.SliceOfN(rapid.Byte(), 1, 12).Draw(rt, "trailComp")
+		if rapid.Bool().Draw(rt, "bigTail") {
+			// more than any read-ahead buffer of the decompressor can swallow
+			tail = bytes.Repeat(tail, rapid.IntRange(4100, 20000).Draw(rt, "tailLen")/len(tail)+1)
+		}
 	case "upper-name":
 		raw = rawBlock(append(pairs, refPair{"X-Upper", "v"}))
 	case "dup-name":
@@ -1012,6 +1016,9 @@ func c39RawSweep(t *testing.T, rec *ev.Rec) {
 		full := append(append(u32(1, 0), 0, 0)[:pl], newRefDeflater().block(rawBlock([]refPair{{"a", "b"}}))...)
 		for l := 0; l <= len(full); l++ {
 			c39ReadRaw(t, rec, c39Raw{A: ctlFrame(typ, 0, full[:l]), Class: "sweep-header-length", Incons: l != len(full)})
+		}
+		for _, tl := range []int{1, 5, 4000, 4096, 4200, 9000, 70000} {
+			c39ReadRaw(t, rec, c39Raw{A: ctlFrame(typ, 0, append(append([]byte(nil), full...), bytes.Repeat([]byte{0xa5}, tl)...)), Class: "sweep-trailing-compressed", Incons: true})
 		}
 		overs := []uint32{2, 1 << 16, 1 << 19, 1 << 20}
 		if typ == tSynReply {
